@@ -38,10 +38,10 @@ void sch_trace(int i, int *running, int *mask, int *choice);
 
 static std::string g_tmpdir = ".";
 
-template <class T> std::string ser(const std::vector<T> &v) { return vecToStr(v); }
-static std::string ser(const std::list<VertexIndex> &l) {
+// any iterable of integers (paths, neighbour lists, distance vectors), whatever container type the library uses
+template <class C> std::string ser(const C &c) {
     std::string s = "<";
-    for (auto v : l) s += std::to_string(v) + ",";
+    for (auto v : c) s += std::to_string(v) + ",";
     return s + ">";
 }
 static std::string slurp(const std::string &p) {
